@@ -17,6 +17,7 @@ From Cedar Require Export SchemaSynRun.
 From Cedar Require Export ExtParse.
 From Cedar Require Export Level.
 From Cedar Require Export ManifestRun.
+From Cedar Require Export EntJsonRun.
 
 Definition dispatchers : list (string -> list sexp -> option sexp) :=
   [ run_core
@@ -34,6 +35,7 @@ Definition dispatchers : list (string -> list sexp -> option sexp) :=
   ; run_ext
   ; run_level
   ; run_manifest
+  ; run_entjson
   ].
 
 Fixpoint dispatch (ds : list (string -> list sexp -> option sexp)) (cmd : string) (args : list sexp) : sexp :=
